@@ -11,6 +11,18 @@ ops:  t+ <ns>                                               => <state>
       dump                                                  => n=<visited buckets> <i:sum/succ/fail/drop of the non-empty ones>
 <state> = h=<accepts>/<total>/<failingBuckets>/<workingBuckets> w=<Σsum>/<Σsucc>/<Σfail>/<Σdrop> lp=<lastPass ns>
 The draw is u = m / 2^53 (the harness scripts proba's source with Int63() = m·2^10, so Float64() is exactly u).
+Request outcomes: ok | erra | erru | brk (the request's own ErrServiceUnavailable) | wbrk (an error wrapping it) | panic;
+`ret=` names the request's error when it came back by identity (nil/erra/erru/brk/wbrk), else unavail/fbres/ctx/other.
+
+      par g=<G> k=<K> fp=<fail%> mix=<seed> u=<m>            => calls=<n> succ=<a> fail=<b> rej=<c> bad=<anomalies> <state>
+          (G goroutines x K calls on the one breaker, clock frozen; split taken from the observation, verdict schedule-free)
+      site <site> <class> p=<0|1> sf=<0|1> ua=<0|1> ig=<0|1> ctx=<none|live|done> u=<m>
+                                                            => req=<n> ret=<same|unavail|stunavail|http503|ctx|other|none> panic=<0|1> drew=<0|1> <state>
+          (one request through the real rest handler / zrpc interceptor / redis hook / sqlx connection; Sites.lean)
+cfg kind=named: one breaker per name (breakers.go); every op but `t+` ends with name=<x> and its observation with
+      oth=<Σ sum of the other names' windows>; `t+` prints `<name> <state> | …` for the names created so far.
+cfg kind=rw size=<n> iv=<d>: a bare RollingWindow; ops t+ <ns> | add <succ|fail|drop> => n=<visited> w=<Σ>; dump.
+cfg kind=race: `races => total=<n> known-errorwindow=<k> unknown=<u> [first=<frames>]`, the race detector's verdict.
 -/
 import GoZero.Base.Trace
 import GoZero.C01.Spec
@@ -31,15 +43,18 @@ def parseOutcome : String → Option Outcome
   | "ok" => some .ok
   | "erra" => some .errA
   | "erru" => some .errU
+  | "brk" => some .brk
+  | "wbrk" => some .wbrk
   | "panic" => some .panic
   | _ => none
 
 def retStr : Ret → String
-  | .nil => "nil" | .errA => "erra" | .errU => "erru" | .unavailable => "unavail"
+  | .nil => "nil" | .errA => "erra" | .errU => "erru" | .brk => "brk" | .wbrk => "wbrk" | .unavailable => "unavail"
   | .fallbackResult => "fbres" | .ctxErr => "ctx"
 
 def parseRet : String → Option Ret
-  | "nil" => some .nil | "erra" => some .errA | "erru" => some .errU | "unavail" => some .unavailable
+  | "nil" => some .nil | "erra" => some .errA | "erru" => some .errU | "brk" => some .brk | "wbrk" => some .wbrk
+  | "unavail" => some .unavailable
   | "fbres" => some .fallbackResult | "ctx" => some .ctxErr | _ => none
 
 inductive Ctx | none | live | done deriving DecidableEq
